@@ -59,6 +59,14 @@ CHECKS = {
             'checked against the identifiers of F (CPython parser) and F namespace. Every name root must have been requested at least once.',
             'Identifier set taken from ast.parse of inspect.getsource(F).',
             'DESIGN.md 3/C11'),
+    'C15': ('exploration',
+            'differential of parser.parse_entity against ast.parse of the compiled module file, over hostile generated layouts',
+            'Module files are generated with every layout feature of the quantifier; each function object found at run time '
+            '(defs by unique name, lambdas by a unique _id default) is recovered through the real parse_entity and its ast.dump '
+            'compared with the dump of its own node in ast.parse of the file. For lambdas an explicit '
+            'UnsupportedLanguageElementError is accepted; a different lambda is a violation.',
+            'ast.parse of the file is the compiled definition; the object-to-node mapping uses names/defaults only, no positions.',
+            'DESIGN.md 3/C15'),
     'C17': ('exploration',
             'capture of the real transform_ast output and loaded module text; checked with CPython compile/parse and a context walker',
             'For every conversion (top-level and recursively converted callees) the transformed tree is checked for shared node '
